@@ -323,6 +323,7 @@ func (node *Node) ProcessBlock(ctx context.Context, block wire.Block) error {
 							return errors.Wrap(err, "fetch tx state")
 						}
 
+						txState.State.Safe = false
 						txState.State.UnSafe = true
 						txState.State.Cancelled = true
 
@@ -476,6 +477,7 @@ func (node *Node) cancelConflicting(ctx context.Context, tx *wire.MsgTx,
 			return errors.Wrap(err, "fetch tx state")
 		}
 
+		txState.State.Safe = false
 		txState.State.UnSafe = true
 		txState.State.Cancelled = true
 
